@@ -3,7 +3,7 @@
 //! interpreter otherwise); the runner joins the lines of the two builds.  After every step a digest of the observable
 //! machine state is recorded: registers, IME/run state, IF/IE, DIV/TIMA (clocks delivered), LY/STAT, OAM-DMA progress;
 //! periodically and at the end all RAM, the frame buffer and the serial output.
-//! c04 seed=<n> steps=<N> mode=<block|update> | s=<ip,af,sp,div,dg;...> ram=<digest;...> fb=<digest> ser=<hex> fin=<regs...>
+//! c04 seed=<n> steps=<N> mode=<block|update> rom=<addr:hex,...> | s=<ip,af,sp,div,dg;...> ram=<digest;...> fb=<digest> ser=<hex> fin=<regs...>
 use crate::emulator::{Core, RunState};
 use crate::mem::{memory_read_byte, MemoryAreas};
 use crate::roms::*;
@@ -179,6 +179,15 @@ fn fb_digest(core: &Core) -> u64 {
   h
 }
 
+/// the program's ROM patches as `addr:hexbytes,...` in program order, for the model replay of the driver
+fn patches_field(seed: u64) -> String {
+  let mut segs: Vec<(usize, Vec<u8>)> = Vec::new();
+  for (at, b) in build_program(seed) {
+    match segs.last_mut() { Some((start, bytes)) if *start + bytes.len() == at => bytes.push(b), _ => segs.push((at, vec![b])) }
+  }
+  segs.iter().map(|(a, bs)| format!("{}:{}", a, hex(bs))).collect::<Vec<_>>().join(",")
+}
+
 pub fn run_one(seed: u64, steps: usize, update: bool, w: &mut dyn Write) {
   let mut core = load(seed);
   let cap = Capture::start();
@@ -204,8 +213,8 @@ pub fn run_one(seed: u64, steps: usize, update: bool, w: &mut dyn Write) {
   rams.push(ram_digest(&mut core).to_string());
   let fb = fb_digest(&core);
   let ser = cap.finish();
-  writeln!(w, "c04 seed={} steps={} mode={} | s={} ram={} fb={} ser={}", seed, steps, if update { "update" } else { "block" },
-    s.join(";"), rams.join(";"), fb, hex(&ser)).unwrap();
+  writeln!(w, "c04 seed={} steps={} mode={} rom={} | s={} ram={} fb={} ser={}", seed, steps, if update { "update" } else { "block" },
+    patches_field(seed), s.join(";"), rams.join(";"), fb, hex(&ser)).unwrap();
 }
 
 pub fn run(_sub: &str, opts: &Opts, w: &mut dyn Write) {
